@@ -171,10 +171,12 @@ impl Check for C11Check {
         let seed = simcore::run_seed(simcore::driver::verif_seed(), "C11-pair", i);
         let mut r = Rng::new(seed);
         let event = match i % 8 {
+            // the whole detector answers, plus a malformed group from a board that is not installed
+            1 if i % 64 == 33 => Kind::FullTpc { extra: *r.pick(&[1u8, 1, 1, 2]) },
             0 | 1 => Kind::Fwd { tracks: r.usize(2, 5), noise: *r.pick(&[0.0, 2.0, 5.0]), amp_scale: 1.0 },
             // hit patterns on calibrated real runs (maps, delays, calibration tables of that run)
             2 if i % 16 == 10 => Kind::RealHits { run: *r.pick(&[11084u32, 11192, 12000, 9277, 10418]), pattern: *r.pick(&[3u8, 1, 7, 5, 3]), n: *r.pick(&[256usize, 40, 256]) },
-            2 => Kind::Hits { pattern: r.below(24) as u8, n: *r.pick(&[13usize, 20, 40, 256]) },
+            2 => Kind::Hits { pattern: r.below(25) as u8, n: *r.pick(&[13usize, 20, 40, 256]) },
             // consistent events on calibrated real runs with every wire and several pad groups:
             // whatever the library derives from its calibration tables takes part in the result
             5 if i % 16 == 5 => Kind::EvFault {
@@ -189,7 +191,7 @@ impl Check for C11Check {
             6 => Kind::Extreme { wires: *r.pick(&[2usize, 9, 40]), wire_mode: r.below(8) as u8, wire_len: *r.pick(&[101usize, 130, 300]), pad_msgs: r.usize(0, 3), pad_mode: r.below(8) as u8, pad_req: *r.pick(&[101u16, 120, 300]), pad_channels: *r.pick(&[3usize, 20, 79]), seam: r.chance(1, 2) },
             _ => Kind::Fwd { tracks: 2, noise: 0.0, amp_scale: *r.pick(&[0.2, 3.0]) },
         };
-        let heavy = matches!(event, Kind::Fwd { .. } | Kind::Hits { .. } | Kind::RealHits { .. });
+        let heavy = matches!(event, Kind::Fwd { .. } | Kind::Hits { .. } | Kind::RealHits { .. } | Kind::FullTpc { .. });
         let k: Vec<u64> = (0..4).map(|_| r.next_u64()).collect();
         let mut trials = vec![
             Trial { perm: Perm::Identity, hash_key: k[0], twice: true, after_other: false, clock: None },
@@ -199,6 +201,14 @@ impl Check for C11Check {
             Trial { perm: Perm::Identity, hash_key: k[3], twice: false, after_other: false, clock: None },
             Trial { perm: Perm::Rotate(r.usize(1, 50)), hash_key: k[1], twice: false, after_other: false, clock: None },
         ];
+        if matches!(event, Kind::FullTpc { .. }) {
+            // 257 groups in the (board, chip) table: which one is visited last is one chance in 257 per
+            // hash key - several hundred keys, identity order only
+            trials.truncate(2);
+            for _ in 0..700 {
+                trials.push(Trial { perm: Perm::Identity, hash_key: r.next_u64(), twice: false, after_other: false, clock: None });
+            }
+        }
         trials.push(Trial { perm: Perm::Identity, hash_key: k[2], twice: false, after_other: true, clock: None });
         trials.push(Trial { perm: Perm::Identity, hash_key: k[0], twice: false, after_other: false, clock: Some(r.next_u64() | 1) });
         if heavy {
